@@ -1,8 +1,316 @@
-"""U5 for the generator: hash-order-dependent iteration must feed order-insensitive sinks only."""
+"""Facts about the *generator sources* that C16 can decide without running them:
+
+GF1  hash-order lint: iteration over a set (or picking from one) may only feed order-insensitive consumers
+GF2  keyword classification: the regex that decides "this literal is a keyword" is the identifier language
+GF3  truthiness wrapping: the call text emitted for `x*` / `[x]` ends in a comma (a one-tuple, always true) and the one for
+     `x+` / gathers does not
+GF4  keyword tables are emitted through sorted()
+GF5  decorator emission: @memoize_left_rec for leaders, @logger for other left-recursive rules, @memoize otherwise / on (memo)
+"""
 from __future__ import annotations
 
-from ..common import Check
+import ast
+from typing import Optional
+
+from .. import rx
+from ..common import AnalysisError, Check, norm_stmt, parse_py
+
+GEN_FILES = ("tasks/generator.py", "pegen/parser_generator.py", "pegen/python_generator.py", "pegen/grammar.py",
+             "pegen/sccutils.py", "pegen/build.py", "pegen/__main__.py")
+INSENSITIVE_CONSUMERS = {"sorted", "set", "frozenset", "len", "min", "max", "any", "all", "sum"}
+SET_MUTATORS = {"add", "update", "discard", "difference_update", "intersection_update", "setdefault"}
+
+# Hash-order dependent iterations that were read and found harmless; (file, function, iterated expression) -> reason
+REVIEWED = {
+    ("pegen/sccutils.py", "dfs", "edges[v]"): "visit order only changes the order in which components are yielded, never their membership; the consumer folds over them with flag stores",
+    ("pegen/sccutils.py", "strongly_connected_components", "vertices"): "same: order of yielded components only",
+    ("pegen/sccutils.py", "dfs", "graph[node]"): "order of yielded cycles only; the consumer intersects candidate sets, which is order-independent",
+    ("pegen/sccutils.py", "topsort", "set.union(*data.values()) - set(data.keys())"): "topsort is not on the generation path",
+    ("pegen/parser_generator.py", "make_first_graph", "vertices"): "only adds empty entries for vertices without outgoing edges; dict order feeds the SCC search whose result is order-independent",
+}
+
+
+def _is_set_annotation(a: Optional[ast.expr]) -> bool:
+    if a is None:
+        return False
+    s = norm_stmt(a)
+    return s.lower().startswith(("set[", "abstractset[", "frozenset[", "typing.set[")) or s in ("set", "Set", "AbstractSet")
+
+
+def _is_dict_of_sets(a: Optional[ast.expr]) -> bool:
+    if a is None:
+        return False
+    s = norm_stmt(a).replace(" ", "")
+    return s.lower().startswith("dict[") and ("set[" in s.lower().split(",", 1)[-1])
+
+
+class _SetTyper:
+    def __init__(self, mod: ast.Module):
+        self.set_returning = {n.name for n in ast.walk(mod) if isinstance(n, ast.FunctionDef) and _is_set_annotation(n.returns)}
+        self.attr_sets: set[str] = set()
+        for n in ast.walk(mod):
+            if isinstance(n, ast.AnnAssign) and isinstance(n.target, ast.Attribute) and _is_set_annotation(n.annotation):
+                self.attr_sets.add(n.target.attr)
+            if isinstance(n, ast.Assign) and isinstance(n.targets[0], ast.Attribute) and self._literal_set(n.value):
+                self.attr_sets.add(n.targets[0].attr)
+
+    @staticmethod
+    def _literal_set(v: ast.expr) -> bool:
+        return isinstance(v, (ast.Set, ast.SetComp)) or (isinstance(v, ast.Call) and norm_stmt(v.func) in ("set", "frozenset"))
+
+    def function_env(self, fn: ast.FunctionDef, outer: tuple[set, set]) -> tuple[set, set]:
+        sets, dict_of_sets = set(outer[0]), set(outer[1])
+        for a in fn.args.args + fn.args.kwonlyargs:
+            if _is_set_annotation(a.annotation):
+                sets.add(a.arg)
+            if _is_dict_of_sets(a.annotation):
+                dict_of_sets.add(a.arg)
+        for n in ast.walk(fn):
+            if isinstance(n, ast.AnnAssign) and isinstance(n.target, ast.Name):
+                if _is_set_annotation(n.annotation):
+                    sets.add(n.target.id)
+                if _is_dict_of_sets(n.annotation):
+                    dict_of_sets.add(n.target.id)
+            if isinstance(n, ast.Assign) and len(n.targets) == 1 and isinstance(n.targets[0], ast.Name):
+                v = n.value
+                if self._literal_set(v) or (isinstance(v, ast.Call) and isinstance(v.func, ast.Name) and v.func.id in self.set_returning) \
+                        or (isinstance(v, ast.Call) and isinstance(v.func, ast.Attribute) and v.func.attr in self.set_returning) \
+                        or (isinstance(v, ast.BinOp) and isinstance(v.op, (ast.Sub, ast.BitOr, ast.BitAnd)) and self.is_set(v.left, sets, dict_of_sets)):
+                    sets.add(n.targets[0].id)
+                if isinstance(v, ast.DictComp) and self._literal_set(v.value):
+                    dict_of_sets.add(n.targets[0].id)
+        return sets, dict_of_sets
+
+    def is_set(self, e: ast.expr, sets: set, dict_of_sets: set) -> bool:
+        if self._literal_set(e):
+            return True
+        if isinstance(e, ast.Name):
+            return e.id in sets
+        if isinstance(e, ast.Attribute):
+            return e.attr in self.attr_sets
+        if isinstance(e, ast.Subscript) and isinstance(e.value, ast.Name):
+            return e.value.id in dict_of_sets
+        if isinstance(e, ast.Call):
+            f = e.func
+            name = f.id if isinstance(f, ast.Name) else (f.attr if isinstance(f, ast.Attribute) else "")
+            return name in self.set_returning
+        if isinstance(e, ast.BinOp) and isinstance(e.op, (ast.Sub, ast.BitOr, ast.BitAnd)):
+            return self.is_set(e.left, sets, dict_of_sets)
+        return False
+
+
+def _body_insensitive(stmts, loopvars: set[str]) -> bool:
+    for st in stmts:
+        if isinstance(st, ast.Expr) and isinstance(st.value, ast.Call) and isinstance(st.value.func, ast.Attribute) \
+                and st.value.func.attr in SET_MUTATORS and st.value.func.attr != "setdefault":
+            continue
+        if isinstance(st, ast.AugAssign) and isinstance(st.op, (ast.Sub, ast.BitOr, ast.BitAnd)):
+            continue
+        if isinstance(st, ast.Assign) and all(isinstance(t, ast.Attribute) for t in st.targets) and isinstance(st.value, ast.Constant):
+            continue  # idempotent flag stores such as rules[name].left_recursive = True
+        if isinstance(st, ast.If) and _body_insensitive(st.body, loopvars) and _body_insensitive(st.orelse, loopvars):
+            continue
+        if isinstance(st, ast.For) and _body_insensitive(st.body, loopvars):
+            continue
+        if isinstance(st, ast.Raise) or isinstance(st, ast.Pass):
+            continue
+        return False
+    return True
+
+
+def rule_gf1(chk: Check):
+    for rel in GEN_FILES:
+        mod = parse_py(rel)
+        typer = _SetTyper(mod)
+
+        def visit_fn(fn: ast.FunctionDef, outer):
+            env = typer.function_env(fn, outer)
+            sets, dos = env
+            nested = [n for n in ast.walk(fn) if isinstance(n, ast.FunctionDef) and n is not fn]
+            nested_nodes = {id(x) for nf in nested for x in ast.walk(nf)}
+            for n in ast.walk(fn):
+                if id(n) in nested_nodes and n not in nested:
+                    continue
+                site = None
+                if isinstance(n, ast.For) and typer.is_set(n.iter, sets, dos):
+                    lv = {x.id for x in ast.walk(n.target) if isinstance(x, ast.Name)}
+                    site = (n.iter, _body_insensitive(n.body, lv), f"for … in {norm_stmt(n.iter)}")
+                elif isinstance(n, ast.comprehension) and typer.is_set(n.iter, sets, dos):
+                    site = (n.iter, None, f"comprehension over {norm_stmt(n.iter)}")
+                elif isinstance(n, ast.Call):
+                    f = n.func
+                    name = f.id if isinstance(f, ast.Name) else (f.attr if isinstance(f, ast.Attribute) else "")
+                    if name == "pop" and isinstance(f, ast.Attribute) and typer.is_set(f.value, sets, dos) and not n.args:
+                        site = (f.value, False, f"{norm_stmt(n)} picks an arbitrary element")
+                    elif name in ("list", "tuple", "next", "iter", "enumerate", "join") and n.args and typer.is_set(
+                            n.args[0].value if isinstance(n.args[0], ast.Starred) else n.args[0], sets, dos):
+                        site = (n.args[0], False, f"{norm_stmt(n)[:60]}")
+                    elif any(isinstance(a, ast.Starred) and typer.is_set(a.value, sets, dos) for a in n.args) and name not in INSENSITIVE_CONSUMERS:
+                        site = (n, False, f"{norm_stmt(n)[:60]} unpacks a set")
+                if site is None:
+                    continue
+                it, insensitive, desc = site
+                chk.count("GF1-hash-order")
+                key = f"{rel}:{fn.name}:{norm_stmt(it)[:60]}"
+                where = f"{rel}:{getattr(it, 'lineno', fn.lineno)}"
+                if insensitive is None:
+                    # comprehension: fine when it builds a set/dict or feeds an order-insensitive consumer
+                    parent_ok = any(isinstance(p, (ast.SetComp, ast.DictComp)) and n in p.generators for p in ast.walk(fn)) or any(
+                        isinstance(p, ast.Call) and isinstance(p.func, ast.Name) and p.func.id in INSENSITIVE_CONSUMERS and p.args
+                        and isinstance(p.args[0], (ast.GeneratorExp, ast.ListComp)) and n in p.args[0].generators for p in ast.walk(fn))
+                    insensitive = parent_ok
+                if insensitive:
+                    chk.ok("GF1-hash-order", key, where)
+                elif (rel, fn.name, norm_stmt(it)) in REVIEWED:
+                    chk.ok("GF1-hash-order", key, where, "reviewed: " + REVIEWED[(rel, fn.name, norm_stmt(it))])
+                else:
+                    chk.fail("GF1-hash-order", key, where,
+                             f"{desc}: the generator's output would depend on set iteration order, i.e. on PYTHONHASHSEED "
+                             f"(generation is no longer deterministic across runs)")
+            for nf in [x for x in fn.body if isinstance(x, ast.FunctionDef)]:
+                visit_fn(nf, env)
+
+        for top in mod.body:
+            if isinstance(top, ast.FunctionDef):
+                visit_fn(top, (set(), set()))
+            elif isinstance(top, ast.ClassDef):
+                for m in top.body:
+                    if isinstance(m, ast.FunctionDef):
+                        visit_fn(m, (set(), set()))
+    chk.floor("GF1-hash-order", 3)
+
+
+def _find_method(mod: ast.Module, cls: str, name: str) -> Optional[ast.FunctionDef]:
+    for c in mod.body:
+        if isinstance(c, ast.ClassDef) and c.name == cls:
+            for m in c.body:
+                if isinstance(m, ast.FunctionDef) and m.name == name:
+                    return m
+    return None
+
+
+def rule_gf2(chk: Check):
+    mod = parse_py("pegen/python_generator.py")
+    fn = _find_method(mod, "PythonCallMakerVisitor", "visit_StringLeaf")
+    if fn is None:
+        raise AnalysisError("PythonCallMakerVisitor.visit_StringLeaf vanished")
+    pats = [n.args[0].value for n in ast.walk(fn) if isinstance(n, ast.Call) and norm_stmt(n.func) in ("re.match", "re.fullmatch")
+            and n.args and isinstance(n.args[0], ast.Constant) and isinstance(n.args[0].value, str)]
+    chk.count("GF2-keyword-regex")
+    if len(pats) != 1:
+        chk.fail("GF2-keyword-regex", "visit_StringLeaf:pattern", f"pegen/python_generator.py:{fn.lineno}",
+                 "the literal-is-a-keyword test is no longer a single regular expression")
+        return
+    try:
+        an = rx.Analysis({"gen": pats[0], "ident": r"[a-zA-Z_]\w*\Z"})
+        diff = an.witness_difference("gen", "ident")
+    except rx.Unsupported as e:
+        raise AnalysisError(f"keyword regex not analysable: {e}")
+    chk.require(diff is None, "GF2-keyword-regex", "visit_StringLeaf:pattern", f"pegen/python_generator.py:{fn.lineno}",
+                f"a quoted literal is classified as a keyword by `{pats[0]}`, which differs from the identifier language on "
+                f"{diff[0]!r}: the KEYWORDS/SOFT_KEYWORDS tables the generator emits would change" if diff else "")
+
+
+def _ends_with_comma(e: ast.expr, fn: ast.FunctionDef) -> Optional[bool]:
+    if isinstance(e, ast.Constant) and isinstance(e.value, str):
+        return e.value.endswith(",")
+    if isinstance(e, ast.JoinedStr) and e.values:
+        last = e.values[-1]
+        if isinstance(last, ast.Constant):
+            return str(last.value).endswith(",")
+        return False
+    if isinstance(e, ast.BinOp) and isinstance(e.op, ast.Add):
+        return _ends_with_comma(e.right, fn)
+    if isinstance(e, ast.Name):
+        defs = [n.value for n in ast.walk(fn) if isinstance(n, ast.Assign) and any(isinstance(t, ast.Name) and t.id == e.id for t in n.targets)]
+        vals = {_ends_with_comma(d, fn) for d in defs}
+        return vals.pop() if len(vals) == 1 else None
+    if isinstance(e, ast.Call):
+        return False  # f"self.{name}()" built elsewhere: a call text ends in ')'
+    return None
+
+
+def _emitted_call_exprs(fn: ast.FunctionDef) -> list[ast.expr]:
+    """Second components of the (name, call) pairs a visit_* method produces (returned or stored in the cache)."""
+    out = []
+    for n in ast.walk(fn):
+        v = None
+        if isinstance(n, ast.Return) and isinstance(n.value, ast.Tuple) and len(n.value.elts) == 2:
+            v = n.value.elts[1]
+        elif isinstance(n, ast.Assign) and isinstance(n.value, ast.Tuple) and len(n.value.elts) == 2 and \
+                any("cache" in norm_stmt(t) for t in n.targets):
+            v = n.value.elts[1]
+        if v is not None:
+            out.append(v)
+    return out
+
+
+def rule_gf3(chk: Check):
+    want = {"visit_Repeat0": True, "visit_Repeat1": False, "visit_Gather": False}
+    for rel, cls in (("pegen/python_generator.py", "PythonCallMakerVisitor"), ("tasks/generator.py", "XonshCallMakerVisitor")):
+        mod = parse_py(rel)
+        for meth, comma in want.items():
+            fn = _find_method(mod, cls, meth)
+            if fn is None:
+                continue
+            exprs = _emitted_call_exprs(fn)
+            chk.count("GF3-truthiness-comma")
+            vals = {_ends_with_comma(e, fn) for e in exprs}
+            ok = bool(exprs) and vals == {comma}
+            chk.require(ok, "GF3-truthiness-comma", f"{rel}:{cls}.{meth}", f"{rel}:{fn.lineno}",
+                        f"the call text for `{'x*' if meth == 'visit_Repeat0' else ('x+' if meth == 'visit_Repeat1' else 's.x+')}` must "
+                        f"{'end in a comma (one-tuple: an empty repetition still succeeds)' if comma else 'not end in a comma (an empty result must fail)'}"
+                        f"; found endings {sorted(map(str, vals))}: regenerating would change the shipped parser")
+    # visit_Opt: adds the comma unless already present
+    mod = parse_py("pegen/python_generator.py")
+    fn = _find_method(mod, "PythonCallMakerVisitor", "visit_Opt")
+    chk.count("GF3-truthiness-comma")
+    ok = False
+    if fn is not None:
+        ifs = [n for n in ast.walk(fn) if isinstance(n, ast.If) and "endswith(',')" in norm_stmt(n.test)]
+        if len(ifs) == 1:
+            a = [_ends_with_comma(r.value.elts[1], fn) for r in ast.walk(ifs[0]) if isinstance(r, ast.Return) and isinstance(r.value, ast.Tuple)]
+            els = [r for s in ifs[0].orelse for r in ast.walk(s) if isinstance(r, ast.Return) and isinstance(r.value, ast.Tuple)]
+            ok = bool(els) and all(_ends_with_comma(r.value.elts[1], fn) is True for r in els)
+    chk.require(ok, "GF3-truthiness-comma", "pegen/python_generator.py:PythonCallMakerVisitor.visit_Opt",
+                f"pegen/python_generator.py:{fn.lineno if fn else 0}",
+                "an optional item must be emitted as a one-tuple (trailing comma) unless its call text already ends in one")
+
+
+def rule_gf4_gf5(chk: Check):
+    for rel, cls in (("pegen/python_generator.py", "PythonParserGenerator"), ("tasks/generator.py", "XonshParserGenerator")):
+        mod = parse_py(rel)
+        gen = _find_method(mod, cls, "generate")
+        if gen is None:
+            raise AnalysisError(f"{cls}.generate vanished")
+        for table in ("keywords", "soft_keywords"):
+            chk.count("GF4-sorted-tables")
+            ok = any(isinstance(n, ast.Call) and norm_stmt(n.func) == "sorted" and n.args and norm_stmt(n.args[0]).endswith(f".{table}")
+                     for n in ast.walk(gen))
+            chk.require(ok, "GF4-sorted-tables", f"{rel}:{cls}.generate:{table}", f"{rel}:{gen.lineno}",
+                        f"the {table} table is a set and must be emitted through sorted()")
+        vr = _find_method(mod, cls, "visit_Rule")
+        chk.count("GF5-decorator-emission")
+        ok = False
+        if vr is not None:
+            top = [n for n in vr.body if isinstance(n, ast.If) and norm_stmt(n.test) == "node.left_recursive"]
+            if len(top) == 1:
+                inner = [n for n in top[0].body if isinstance(n, ast.If) and norm_stmt(n.test) == "node.leader"]
+                lead = inner and "'@memoize_left_rec'" in norm_stmt(inner[0].body[0]) and any("'@logger'" in norm_stmt(s) for s in inner[0].orelse)
+                rest = top[0].orelse
+                if cls == "XonshParserGenerator":
+                    memo = len(rest) == 1 and isinstance(rest[0], ast.If) and norm_stmt(rest[0].test) == "node.memo" and \
+                        "'@memoize'" in norm_stmt(rest[0].body[0]) and not rest[0].orelse
+                else:
+                    memo = len(rest) == 1 and "'@memoize'" in norm_stmt(rest[0])
+                ok = bool(lead) and memo
+        chk.require(ok, "GF5-decorator-emission", f"{rel}:{cls}.visit_Rule", f"{rel}:{vr.lineno if vr else 0}",
+                    "decorators must be emitted as: @memoize_left_rec for the leader of a left-recursive group, @logger for its other "
+                    "members, and @memoize " + ("only for (memo) rules" if cls == "XonshParserGenerator" else "for every other rule"))
 
 
 def run(chk: Check):
-    chk.note("generator determinism lint: not yet armed")
+    rule_gf1(chk)
+    rule_gf2(chk)
+    rule_gf3(chk)
+    rule_gf4_gf5(chk)
